@@ -49,7 +49,21 @@ def expected_for(rule, attr, registered, grammar_rrel):
     return 'notunique'           # default provider: two objects named a
 
 
-def run_config(registered, grammar_rrel):
+class FalsyProvider:
+    """a callable provider object whose truth value is False (e.g. a memoising
+    provider with __len__, still empty when it is registered)"""
+
+    def __init__(self, fn):
+        self.fn = fn
+
+    def __call__(self, obj, attr, ref):
+        return self.fn(obj, attr, ref)
+
+    def __len__(self):
+        return 0
+
+
+def run_config(registered, grammar_rrel, falsy=False):
     from textx import metamodel_from_str
     from textx.exceptions import TextXSemanticError
     mm = metamodel_from_str(GRAMMAR % {'rrel': ':ID|objs' if grammar_rrel else ''})
@@ -62,6 +76,8 @@ def run_config(registered, grammar_rrel):
         else:
             provs[key] = (lambda obj, attr, ref, kind=kind:
                           next(o for o in _root(obj).objs if o.name == kind))
+    if falsy:
+        provs = {k: (v if isinstance(v, str) else FalsyProvider(v)) for k, v in provs.items()}
     mm.register_scope_providers(provs)
     try:
         m = mm.model_from_str(MODEL)
@@ -83,11 +99,11 @@ def _root(obj):
     return obj
 
 
-def judge(registered, grammar_rrel):
+def judge(registered, grammar_rrel, falsy=False):
     refs = [('User', 'r'), ('User', 'rs'), ('User', 'rs'), ('Other', 'r')]
     exp = [expected_for(r, a, registered, grammar_rrel) for r, a in refs]
     try:
-        got = run_config(registered, grammar_rrel)
+        got = run_config(registered, grammar_rrel, falsy)
     except Exception as e:  # noqa
         return True, 'load raised %s: %s' % (type(e).__name__, e), exp
     first_err = next((x for x in exp if x in ('unknown', 'notunique')), None)
@@ -112,8 +128,9 @@ def explore(item):
                     registered[k] = 'rrel'
                 else:
                     registered[k] = 'k%d' % (ALL_KEYS.index(k) % 4)
-        bad, detail, exp = judge(registered, grammar_rrel)
-        return (bad, registered, detail)
+        falsy = c.branch(z3.Bool('falsy_provider_objects'))
+        bad, detail, exp = judge(registered, grammar_rrel, falsy)
+        return (bad, dict(registered, falsy_provider_objects=falsy) if falsy else registered, detail)
     outs = ctx.explore(path)
     return {'grammar_rrel': grammar_rrel, 'paths': ctx.paths,
             'bad': [[o[1], o[2]] for o in outs if o[0]][:5], 'nbad': sum(1 for o in outs if o[0])}
@@ -126,7 +143,7 @@ def main():
     results = pmap(explore, [(False,), (True,)])
     chk.cov['functions_encoded'] = src_hash(M.ReferenceResolver.resolve_one_step,
                                             MM.TextXMetaModel.register_scope_providers)
-    chk.cov['bounds'] = {'keys': ALL_KEYS, 'provider_kinds': ['marker object', 'returns None', 'RREL string'],
+    chk.cov['bounds'] = {'keys': ALL_KEYS, 'provider_kinds': ['marker object', 'returns None', 'RREL string'], 'provider_objects': ['functions', 'falsy callable objects'],
                          'grammar_rrel': [False, True]}
     chk.cov['outside_claim'] = ['other grammars', 'providers that return Postponed']
     chk.assumptions = ['finite configuration space enumerated exhaustively (selectors unconstrained: z3 decides nothing)']
@@ -149,5 +166,7 @@ def main():
 
 
 def replay(data):
-    bad, detail, exp = judge(data['registered'], data['grammar_rrel'])
+    reg = dict(data['registered'])
+    falsy = reg.pop('falsy_provider_objects', False)
+    bad, detail, exp = judge(reg, data['grammar_rrel'], falsy)
     return bad, detail
